@@ -151,8 +151,8 @@ theorem pow_bounded_exp_good {st : State} {n m : Nat} (g : Good st.params n m)
   exact opRetrieve_canon g (ammOneOK_holds g.mlt g.k) (Nat.mod_lt _ g.pos)
 
 /-- … in particular from ANY parameter constructor (`MontyParams::new`, `new_vartime`, `impl_modulus!`,
-    `BoxedMontyParams::new`), for every limb count `n` and every odd modulus `1 < m < B^n`. -/
-theorem pow_bounded_exp_from_constructors (n m : Nat) (hm : m < B ^ n) (hodd : m % 2 = 1) (hgt : 1 < m)
+    `BoxedMontyParams::new`), for every limb count `n` and every odd modulus `m < B^n` (`m = 1` included since fix b15470f). -/
+theorem pow_bounded_exp_from_constructors (n m : Nat) (hm : m < B ^ n) (hodd : m % 2 = 1)
     (rep : Monty.Rep) (p : Params)
     (hp : p = paramsNew (toLimbs n m) ∨ p = paramsNewVartime (toLimbs n m) ∨ p = paramsConst (toLimbs n m) ∨
           p = paramsBoxed (toLimbs n m))
@@ -162,14 +162,14 @@ theorem pow_bounded_exp_from_constructors (n m : Nat) (hm : m < B ^ n) (hodd : m
       = toLimbs n (v ^ (val e % 2 ^ bits) % m) ∧
     opPow { rep := rep, params := p, store := [] } (opNew { rep := rep, params := p, store := [] } v) e bits
       = canon n m (v ^ (val e % 2 ^ bits) % m) := by
-  have ⟨a, b, c, d⟩ := CB.P08.constructors_yield_constants n m hm hodd hgt
+  have ⟨a, b, c, d⟩ := CB.P08.constructors_yield_constants n m hm hodd
   have hps : p = paramsSpec n m := by
     rcases hp with h | h | h | h <;> rw [h] <;> assumption
-  have g : Good (State.mk rep p []).params n m := hps ▸ good_spec hm hodd hgt
+  have g : Good (State.mk rep p []).params n m := hps ▸ good_spec hm hodd
   exact pow_bounded_exp_good g v hv e he bits
 
 /-- consequently the result does not depend on the representation or on the constructor used. -/
-theorem pow_representations_agree (n m : Nat) (hm : m < B ^ n) (hodd : m % 2 = 1) (hgt : 1 < m)
+theorem pow_representations_agree (n m : Nat) (hm : m < B ^ n) (hodd : m % 2 = 1)
     (rep₁ rep₂ : Monty.Rep) (p₁ p₂ : Params)
     (hp₁ : p₁ = paramsNew (toLimbs n m) ∨ p₁ = paramsNewVartime (toLimbs n m) ∨ p₁ = paramsConst (toLimbs n m) ∨
           p₁ = paramsBoxed (toLimbs n m))
@@ -178,8 +178,8 @@ theorem pow_representations_agree (n m : Nat) (hm : m < B ^ n) (hodd : m % 2 = 1
     (v : Nat) (hv : v < B ^ n) (e : List Nat) (he : WF e) (bits : Nat) :
     opPow { rep := rep₁, params := p₁, store := [] } (opNew { rep := rep₁, params := p₁, store := [] } v) e bits =
     opPow { rep := rep₂, params := p₂, store := [] } (opNew { rep := rep₂, params := p₂, store := [] } v) e bits := by
-  rw [(pow_bounded_exp_from_constructors n m hm hodd hgt rep₁ p₁ hp₁ v hv e he bits).2,
-      (pow_bounded_exp_from_constructors n m hm hodd hgt rep₂ p₂ hp₂ v hv e he bits).2]
+  rw [(pow_bounded_exp_from_constructors n m hm hodd rep₁ p₁ hp₁ v hv e he bits).2,
+      (pow_bounded_exp_from_constructors n m hm hodd rep₂ p₂ hp₂ v hv e he bits).2]
 
 /-- non-vacuity of the hypotheses (`ModOK`, `Rep one 1`, `Rep x X`): 2 limbs, m = 2^64 + 1, k = 2^64 − 1,
     one = R mod m = 1, x = the form of 3 (3·R mod m = 3), exponent 5, 3 bits: 3^5 mod m = 243. -/
@@ -190,16 +190,16 @@ example : ∃ ms one x e k X bits, ModOK ms k ∧ Pow.Rep ms one 1 ∧ Pow.Rep m
     ⟨WF_of_all _ (by decide), rfl, by decide⟩, ⟨WF_of_all _ (by decide), rfl, by decide⟩,
     WF_of_all _ (by decide), by decide +kernel⟩
 
-/-! ## the modulus-1 defect (DESIGN §7-14) on the `exponent_bits = 0` path -/
+/-! ## modulus 1 on the `exponent_bits = 0` path (was finding C09-modulus-one-pow-zero-bits; repaired by the
+     `fix:` commit b15470f, which reduces `params.one`) -/
 
-/-- for modulus 1 the result of `pow_bounded_exp(_, 0)` is `one = 1`: not canonical (`¬ 1 < 1`); the boxed
-    `retrieve()` returns 1 where the property demands `x^0 mod 1 = 0`, the fixed-width `retrieve()` reduces it
-    to 0. (`hone : Rep ms one 1` of the theorems above fails exactly here.) -/
+/-- with `one` as the constructors compute it now (C08's `oneOf` / `oneOfBoxed`), `pow_bounded_exp(_, 0)` for modulus 1
+    returns the canonical 0 in every representation, and `retrieve()` gives `x^0 mod 1 = 0`. -/
 theorem pow_zero_bits_modulus_one :
-    bPowMont [0] [5] 0 [1] (paramsBoxed [1]).one (paramsBoxed [1]).modNegInv = [1] ∧
+    bPowMont [0] [5] 0 [1] (paramsBoxed [1]).one (paramsBoxed [1]).modNegInv = [0] ∧
     bRetrieve (bPowMont [0] [5] 0 [1] (paramsBoxed [1]).one (paramsBoxed [1]).modNegInv) [1]
-      (paramsBoxed [1]).modNegInv = [1] ∧
-    powMont [0] [5] 0 [1] (paramsNew [1]).one (paramsNew [1]).modNegInv = [1] ∧
+      (paramsBoxed [1]).modNegInv = [0] ∧
+    powMont [0] [5] 0 [1] (paramsNew [1]).one (paramsNew [1]).modNegInv = [0] ∧
     retrieveMont (powMont [0] [5] 0 [1] (paramsNew [1]).one (paramsNew [1]).modNegInv) [1]
       (paramsNew [1]).modNegInv = [0] := by
   decide +kernel
